@@ -19,11 +19,13 @@ NONE, EPOCH = -77, -1000
 DEVS_LAWS = ["count_includes_null", "desc_not_reversed", "limit_before_offset", "bucket_trunc"]
 DEVS_CHUNK = ["agg_reset_at_chunk", "fillprev_forgets_at_chunk", "limit_per_chunk"]
 
+# the memtable must stay a memtable until the check flushes it (default: flushed 5 s after the last write)
+NO_AUTO_FLUSH = {"write-cold-duration": '"1h"', "force-snapShot-duration": '"1h"'}
 SERVER_CONFS = {
     # name -> extra_conf of vserver.Server
-    "A": {},
+    "A": {"data.memtable": NO_AUTO_FLUSH},
     "B": {"common": {"cpu-num": 2}, "meta": {"ptnum-pernode": 3}, "http": {"chunk-reader-parallel": 1},
-          "data": {"max-rows-per-segment": 3}},
+          "data": {"max-rows-per-segment": 3}, "data.memtable": NO_AUTO_FLUSH},
 }
 
 # ---------------------------------------------------------------------------------------------------
@@ -46,8 +48,18 @@ def gen_cases(tier, seed):
         f2 = ex.submit(tlc, c2, workers=8, timeout=1500)
         nsim = 12 if quick else 150
         f3 = ex.submit(tlc, "QuerySem.sim.cfg", simulate=nsim, depth=16, seed=seed, timeout=1500)
-        f4 = ex.submit(tlc, "QuerySem.bfs.export.cfg", workers=4, timeout=1500)
+        bcfg = "QuerySem.bfs.export.cfg"
+        if quick:       # a seeded sample of the BFS universe: every 100th query, starting at seed % 100
+            os.makedirs(vlib.WORK, exist_ok=True)
+            txt = open(os.path.join(vlib.SPECS, "cfg", bcfg)).read()
+            txt = txt.replace("BfsStride = 1", "BfsStride = 100").replace("BfsOff = 0", f"BfsOff = {seed % 100}")
+            txt = txt.replace("QueryChoices <- BfsQueries", "QueryChoices <- BfsSample")
+            bcfg = os.path.join(vlib.WORK, f"QuerySem.bfs.sample.{os.getpid()}.cfg")
+            open(bcfg, "w").write(txt)
+        f4 = ex.submit(tlc, bcfg, workers=4, timeout=1500)
         r1, r2, r3, r4 = f1.result(), f2.result(), f3.result(), f4.result()
+    if quick:
+        os.remove(bcfg)
     stats["chunk"] = {k: r1[k] for k in ("generated", "distinct", "depth", "wall_s")} | {"cfg": c1}
     stats["laws"] = {k: r2[k] for k in ("generated", "distinct", "depth", "wall_s")} | {"cfg": c2}
     stats["sim"] = {"traces": len(r3["traces"]), "num": nsim, "wall_s": r3["wall_s"]}
@@ -72,8 +84,6 @@ def gen_cases(tier, seed):
         add(h, "sim")
     bfs = r4["traces"]
     rnd = random.Random(seed)
-    if quick:
-        bfs = rnd.sample(bfs, min(len(bfs), 60))
     for h in bfs:
         add(h, "bfs")
     out = []
@@ -427,10 +437,24 @@ def canon(series):
 VARIANTS = [(ch, ics) for ch in (None, 1, 2) for ics in (None, 1, 2, 3)]
 
 
+_start_lock = threading.Lock()
+
+
 class Node:
     def __init__(self, name, conf):
         self.name = name
-        self.srv = vserver.Server(extra_conf=conf, name="c08" + name)
+        # vserver picks its port block from pid + clock: servers are started one at a time, with a retry
+        with _start_lock:
+            for attempt in range(4):
+                self.srv = vserver.Server(extra_conf=conf, name="c08" + name, start=False)
+                try:
+                    self.srv.start(wait=120)
+                    break
+                except vlib.Infra as ex:
+                    self.srv.stop()         # never leave a half started server behind
+                    if "address already in use" not in str(ex) or attempt == 3:
+                        raise
+                    time.sleep(0.5 + attempt)
         self.lock = threading.Lock()
 
     def ddl(self, q):
@@ -497,9 +521,11 @@ def expand_ids(kid):
     return [parts[0]] + ["F-C08-" + x for x in parts[1:]]
 
 
-def predicate_finding(q, mst_kind, open_ids):
+def predicate_finding(q, mst_kind, open_ids, desc=False, ics=None, small_segments=False):
     """findings whose wrong answers cannot be predicted (they depend on the layout and on the order in which series are
     read): any divergence of a query satisfying the finding's predicate is attributed to it"""
+    if mst_kind == "n" and (ics in (1, 2, 3) or small_segments) and q["kind"] == "agg" and "F-C08-8" in open_ids:
+        return "F-C08-8"
     if q["fldc"]["k"] != "none":
         if mst_kind == "n" and "F-C08-7" in open_ids:
             return "F-C08-7"
@@ -522,6 +548,7 @@ class Run:
         self.lock = threading.Lock()
         self.nq = 0
         self.ref = {}            # (set, case, desc) -> (canonical answer, config label)
+        self.tiecut = {}         # (set, case, desc) -> canonical answers seen, for LIMIT cuts through tied rows
         self.known = {}          # finding id -> [details]
         self.by_round = {}
         self.open = load_known()
@@ -557,11 +584,18 @@ class Run:
                     kid = k["id"]
                     break
             if not kid:
-                kid = predicate_finding(q, mst_kind, self.open)
+                kid = predicate_finding(q, mst_kind, self.open, desc, ics,
+                                        "max-rows-per-segment" in self.confs[node.name].get("data", {}))
         rec = None
         if d:
             rec = {"set": si, "case": ci, "config": cfg, "server": node.name, "query": text, "detail": d, "known": kid,
                    "mst_kind": mst_kind, "desc": desc, "chunked": chunked, "ics": ics, "label": label}
+        elif not err and any(g["k"] < len(g["c"]) for s_ in exp for g in s_["rows"] if q["kind"] == "raw"):
+            # LIMIT/OFFSET cuts through rows with equal time stamps: which of them are returned is left open by the
+            # language (it follows the order in which series are merged); recorded, not judged
+            cn = canon([dict(s, name="") for s in series])
+            with self.lock:
+                self.tiecut.setdefault((si, ci, desc), set()).add(cn)
         elif not err:
             # the answer must be a function of contents and query text: the same under every configuration
             cn = canon([dict(s, name="") for s in series])
@@ -690,6 +724,7 @@ def report(run, sets, stats, tier, seed, t0):
         "queries_by_round": run.by_round,
         "server_configs": SERVER_CONFS,
         "divergent_pairs": nviol,
+        "limit_cuts_through_ties": {"queries": len(run.tiecut), "with_configuration_dependent_choice": sum(1 for v in run.tiecut.values() if len(v) > 1)},
         "known_finding_runs": len(known),
         "nonempty_expected": sum(1 for s in sets for e in s["cases"] if e["exp"]["asc"]),
     }
